@@ -232,6 +232,8 @@ def comparison_constants(prog, kind):
                 for c in n['c']:
                     if 'cv' in c:
                         consts.add(c['cv'])
+            if n['k'] == 'BinaryOperator' and n.get('op') == '>>' and isinstance(strip(n['c'][1]).get('cv'), int) and 0 < strip(n['c'][1])['cv'] < 64:
+                consts.add((1 << strip(n['c'][1])['cv']) - 1)       # "x >> k == 0" is the threshold x < 2^k
     return consts
 
 
